@@ -8,10 +8,11 @@ from concurrent.futures import Executor, Future
 
 
 class SimExecutor(Executor):
-    def __init__(self, ch, ctx=None, label='exec'):
+    def __init__(self, ch, ctx=None, label='exec', interleave=None):
         self.ch = ch
         self.ctx = ctx
         self.label = label
+        self.interleave = interleave       # callable run once between two tasks of a map (another caller's work)
         self.tasks_run = 0
         self.schedules = []
 
@@ -27,7 +28,13 @@ class SimExecutor(Executor):
             k = self.ch.pick(self.label + '.next', min(len(pending), workers * 2))
             order.append(pending.pop(k))
         results = [None] * n
-        for i in order:
+        at = self.ch.pick(self.label + '.interleave_at', max(1, n)) if self.interleave is not None and n else None
+        for pos, i in enumerate(order):
+            if pos == at:
+                hook, self.interleave = self.interleave, None
+                hook()
+                if self.ctx is not None:
+                    self.ctx.fault('interleaved_call')
             results[i] = fn(*args[i])
             self.tasks_run += 1
         moved = sum(1 for a, b in zip(order, range(n)) if a != b)
